@@ -40,7 +40,7 @@ import halmos.bitvec as hb  # noqa: E402
 import halmos.hashes as hh  # noqa: E402
 import halmos.sevm as hs  # noqa: E402
 import halmos.utils as hu  # noqa: E402
-from contracts.common import THIS, mk_ex, mk_sevm  # noqa: E402
+from contracts.common import THIS, mk_ex, mk_sevm, replay_script  # noqa: E402
 
 PROP = "C08"
 Z = z3.BitVecVal(0, 256)
@@ -261,12 +261,91 @@ def generic_cases():
         hx, hy = G.simple_hash(x), G.simple_hash(y)
         ctx.oblige("simple_hash is injective", z3.Implies(interp.call(G.simple_hash, [x], {}) == interp.call(G.simple_hash, [y], {}), x == y))
         a, b = z3.BitVecs("a b", 64)
-        ctx.oblige("simple_hash of a value never equals a small offset added to another hash's image base (the low 257 bits are zero)", z3.Extract(256, 0, interp.call(G.simple_hash, [x], {})) == 0)
+        hx_i = interp.call(G.simple_hash, [x], {})
+        ctx.oblige("simple_hash of a value never equals a small offset added to another hash's image base (the low 257 bits are zero)", z3.BoolVal(hx_i.size() >= 257 + 256) if hx_i.size() < 513 else z3.Extract(256, 0, hx_i) == 0)
         r = interp.call(G.add_all, [[hx, z3.BitVec("off", 256)]], {})
-        ctx.oblige("add_all zero-extends to the widest operand and adds", r == hx + z3.ZeroExt(257, z3.BitVec("off", 256)))
+        ctx.oblige("add_all zero-extends to the widest operand and adds", z3.BoolVal(r.size() == hx.size()) if r.size() != hx.size() else r == hx + z3.ZeroExt(hx.size() - 256, z3.BitVec("off", 256)))
 
     out.append(Case(f"{PROP}/sevm.GenericStorage.simple_hash", "injective", harness_hash, sources=("halmos.sevm:GenericStorage.simple_hash", "halmos.sevm:GenericStorage.add_all")))
+
+
+    def harness_shapes(interp):
+        """the generic layout keeps one array per key width: locations of different variables (different base
+        slots) must never get equal keys in the same array, whatever their shapes; the same shape is injective"""
+        ctx = interp.ctx
+        sevm = mk_sevm(storage_layout="generic")
+        ex = mk_ex(sevm)
+
+        def H(*parts):
+            return ex.sha3_data(z3.Concat(*parts) if len(parts) > 1 else parts[0])
+
+        def sym(tag):
+            return z3.BitVecs(f"slot{tag} key{tag} key2{tag} key3{tag} idx{tag} idx2{tag} idx3{tag}", 256)
+
+        def build(name, tag):
+            s0, k, k2, k3, i, j, l = sym(tag)
+            m1 = lambda: H(k, s0)  # noqa: E731
+            a1 = lambda: H(s0) + i  # noqa: E731
+            return {
+                "scalar": lambda: s0, "m[k]": m1, "m[k][k2]": lambda: H(k2, m1()), "m[k][k2][k3]": lambda: H(k3, H(k2, m1())), "a[i]": a1, "a[i][j]": lambda: H(a1()) + j,
+                "a[i][j][l]": lambda: H(H(a1()) + j) + l, "m[k] then array": lambda: H(m1()) + i, "a[i] then mapping": lambda: H(k, a1()), "m[k].field": lambda: m1() + z3.BitVecVal(2, 256),
+                "a[i][j] then mapping": lambda: H(k, H(a1()) + j),
+            }[name]()
+
+        names = ["scalar", "m[k]", "m[k][k2]", "m[k][k2][k3]", "a[i]", "a[i][j]", "a[i][j][l]", "m[k] then array", "a[i] then mapping", "m[k].field", "a[i][j] then mapping"]
+        dec = G.__dict__["decode"].__func__
+
+        def decode(name, tag):
+            try:
+                return interp.call(dec, [G, ex, build(name, tag)], {})
+            except BaseException as e:  # noqa
+                from pyvc.interp import _ENGINE, PathEnd
+
+                if isinstance(e, (PathEnd,) + tuple(_ENGINE)):
+                    raise
+                ctx.oblige(f"decode[{name}]: no exception", z3.BoolVal(False), info={"exc": f"{type(e).__name__}: {e}"[:200]})
+                return None
+
+        d1 = {n: decode(n, "A") for n in names}
+        d2 = {n: decode(n, "B") for n in names}
+        sA, sB = sym("A")[0], sym("B")[0]
+        for x, a in enumerate(names):
+            for b in names[x:]:
+                da, db = d1[a], d2[b]
+                if da is None or db is None:
+                    continue
+                name = f"locations of variables at different base slots never get equal keys in a shared array: {a} / {b}"
+                if da.size() != db.size():
+                    ctx.oblige(name, z3.BoolVal(True), info={"widths": f"{da.size()} / {db.size()} (different arrays)"})
+                    if a == b:
+                        ctx.oblige(f"the same shape is injective in its slot, keys and indices: {a}", z3.BoolVal(False))
+                    continue
+                ctx.oblige(name, z3.Implies(sA != sB, da != db), info={"width": str(da.size())})
+                if a == b:
+                    eqs = z3.And(*[u == v for u, v in zip(sym("A"), sym("B")) if str(u) in str(da) or str(v) in str(db)])
+                    ctx.oblige(f"the same shape is injective in its slot, keys and indices: {a}", z3.Implies(da == db, eqs))
+
+    out.append(Case(f"{PROP}/sevm.GenericStorage.decode#shape-separation", "arrays, mappings and their nestings to depth 3", harness_shapes, replay=replay_generic_collision, sources=("halmos.sevm:GenericStorage.decode", "halmos.sevm:GenericStorage.simple_hash", "halmos.sevm:GenericStorage.add_all")))
     return out
+
+
+def replay_generic_collision(r):
+    """m[5] (mapping at slot 1) and a[1][0] (array of arrays at slot 5) are different Solidity locations"""
+    sevm = mk_sevm(storage_layout="generic")
+    ex = mk_ex(sevm)
+
+    def c(n):
+        return z3.BitVecVal(n, 256)
+
+    m5 = hb.HalmosBitVec(ex.sha3_data(z3.Concat(c(5), c(1))))
+    a10 = hb.HalmosBitVec(ex.sha3_data(ex.sha3_data(c(5)) + c(1)) + c(0))
+    sevm.sstore(ex, THIS, m5, hb.HalmosBitVec(0xAA))
+    got = val(sevm.sload(ex, THIS, a10))
+    s_ = z3.Solver()
+    s_.add(pc_of(ex), got != 0)
+    if s_.check() == z3.sat:
+        return {"reproduced": True, "detail": f"generic layout: after m[5] = 0xaa (mapping at slot 1) the never-written a[1][0] (array at slot 5) reads {z3.simplify(got)} instead of 0: the two locations alias", "inputs": "sstore(keccak(5 . 1), 0xaa); sload(keccak(keccak(5) + 1) + 0)"}
+    return {"reproduced": False, "detail": "m[5] at slot 1 and a[1][0] at slot 5 do not alias in the generic layout"}
 
 
 def sevm_cases():
@@ -395,7 +474,7 @@ def offsetmap_cases():
         interp.call(hs.KeccakRegistry.__dict__["register"], [reg, expr, None], {})
         ctx.oblige("registering the same expression again changes nothing", z3.BoolVal(len(reg._hash_ids) == 1))
 
-    out.append(Case(f"{PROP}/sevm.KeccakRegistry", "register, reverse lookup with offset, copy", harness_registry, sources=("halmos.sevm:KeccakRegistry.register", "halmos.sevm:KeccakRegistry.reverse_lookup", "halmos.sevm:KeccakRegistry.copy")))
+    out.append(Case(f"{PROP}/sevm.KeccakRegistry", "register, reverse lookup with offset, copy", harness_registry, replay=replay_script("registry_copy_between_tests.py", "two tests from one setUp state; the first computes keccak256 of a string at run time, the second reads the literal slot"), sources=("halmos.sevm:KeccakRegistry.register", "halmos.sevm:KeccakRegistry.reverse_lookup", "halmos.sevm:KeccakRegistry.copy")))
     return out
 
 
@@ -585,8 +664,14 @@ def replay_empty_hash(r):
     return {"reproduced": False, "detail": "store/load at the literal slot keccak256('') works in both layouts"}
 
 
+def select_cases_c08():
+    from contracts import c02
+
+    return [Case(f"{PROP}/sevm.Exec.select", c.case, c.harness, replay=c02.replay_select, sources=c.sources) for c in c02.select_cases()]
+
+
 def build_cases(tier="quick"):
-    return solidity_cases() + generic_cases() + sevm_cases() + offsetmap_cases() + empty_hash_cases()
+    return select_cases_c08() + solidity_cases() + generic_cases() + sevm_cases() + offsetmap_cases() + empty_hash_cases()
 
 
 def grounds():
